@@ -79,7 +79,8 @@ class Spec(dict):
 _DESC = st.sampled_from([None, None, None, None, "d", "A description.", "two\nlines", "with \"quotes\"", "  lead", "x\n  indented\nz",
                          "ends with a quote\"", "ends with a backslash\\", "has \"\"\" inside", "caf\u00e9 \U0001F600", "trailing space "])
 DEPR_EMPTY = "<empty-reason>"   # `@deprecated(reason: "")`; the spec value "" stands for `@deprecated` without a reason
-_DEPR = st.sampled_from([None, None, None, None, "", "No longer supported", "use other", DEPR_EMPTY])
+_DEPR = st.sampled_from([None, None, None, None, None, "", "No longer supported", "use other", DEPR_EMPTY,
+                         "caf\u00e9 \U0001F600 \U00020000", "say \"no\" \\ twice\nand a second line"])
 
 
 def depr_reason(d):
@@ -390,7 +391,7 @@ def _depr(f):
         return _applied(f)
     if d == "":
         return " @deprecated" + _applied(f)
-    return " @deprecated(reason: %s)" % json.dumps(depr_reason(d)) + _applied(f)
+    return " @deprecated(reason: %s)" % json.dumps(depr_reason(d), ensure_ascii=False) + _applied(f)
 
 
 def _args_sdl(args, with_desc=False):
